@@ -108,12 +108,17 @@ Fits(v, T) == LET k == ScalarCat[v].k IN
 AltText(T, form) == IF T = "enum" THEN "{type: \"enum\", enum: [1, \"a\"]}"        \* an enum needs its list: rule-set form only
                     ELSE IF T = "decimal" THEN "{type: \"decimal\", precision: 2}"
                     ELSE IF form = "name" THEN "\"" \o T \o "\"" ELSE "{type: \"" \o T \o "\"}"
-OrVocab(v, i, j, fi, fj, skel) ==
-  /\ stage = "start" /\ fam' = "orvocab" /\ stage' = "done" /\ list' = <<>>
+\* nf: the node is also `nullable: true`.  That takes nothing away; whether it makes a null acceptable that no
+\* alternative admits is left open like every null written where types are referred to (see Nullable).
+OrVocab(v, i, j, fi, fj, skel, nf) ==
+  /\ stage = "start" /\ fam' = (IF nf THEN "orvocab-nullable" ELSE "orvocab") /\ stage' = "done" /\ list' = <<>>
   /\ i # j
   /\ LET a == Fits(v, TypeVocab[i]) b == Fits(v, TypeVocab[j]) IN
-     /\ expect' = IF a = "yes" \/ b = "yes" THEN "accept" ELSE IF a = "no" /\ b = "no" THEN "reject" ELSE "unknown"
-     /\ root' = Wrap(skel, ScalarCat[v].text \o " // {or: [" \o AltText(TypeVocab[i], fi) \o ", " \o AltText(TypeVocab[j], fj) \o "]}")
+     /\ expect' = IF a = "yes" \/ b = "yes" THEN "accept"
+                  ELSE IF nf /\ ScalarCat[v].k = "null" THEN "unknown"
+                  ELSE IF a = "no" /\ b = "no" THEN "reject" ELSE "unknown"
+     /\ root' = Wrap(skel, ScalarCat[v].text \o " // {or: [" \o AltText(TypeVocab[i], fi) \o ", " \o AltText(TypeVocab[j], fj) \o "]"
+                              \o (IF nf THEN ", nullable: true" ELSE "") \o "}")
      /\ typ' = ""
 
 \* ---- additionalProperties over the whole type vocabulary (what the rule admits is not C01's business: the
@@ -184,7 +189,7 @@ Next == \/ StartEnum
         \/ \E n \in ScaledSizes, sh \in 1..Len(ScaledShapes) : Scaled(n, sh)
         \/ \E i \in 1..(Len(TypeVocab) + 1) : ApVocab(i)
         \/ \E i \in 1..Len(KeyStrings), v \in {1, 4, 8} : KeyShortcut(i, v)
-        \/ \E v \in OrValues, i, j \in 1..Len(TypeVocab), fi, fj \in {"name", "set"}, s \in {"root", "prop"} : OrVocab(v, i, j, fi, fj, s)
+        \/ \E v \in OrValues, i, j \in 1..Len(TypeVocab), fi, fj \in {"name", "set"}, s \in {"root", "prop"}, nf \in BOOLEAN : OrVocab(v, i, j, fi, fj, s, nf)
 Spec == Init /\ [][Next]_vars
 
 \* a value is always a member of an enum that lists it; const accepts its own example
